@@ -43,6 +43,21 @@ theorem step_ok (s s' : St) (e : Ev) (h : step s e = .ok s') :
   · obtain ⟨h1, h2⟩ := stepCore_ok _ _ _ h
     exact ⟨s, rfl, rfl, rfl, rfl, rfl, rfl, rfl, h1, h2⟩
 
+/-- the state an accepted event is evaluated in: `s` with the hand-off marker cleared -/
+def base (s : St) : St := { s with handoff := none }
+
+theorem base_eq (s : St) (h : s.handoff = none) : base s = s := by
+  cases s; simp only [base] at *; subst h; rfl
+
+theorem step_ok' (s s' : St) (e : Ev) (h : step s e = .ok s') : pre (base s) e = none ∧ s' = eff (base s) e := by
+  unfold step at h
+  split at h
+  · split at h
+    · exact stepCore_ok _ _ _ h
+    · exact absurd h (by simp [fail])
+  · exact absurd h (by simp [fail])
+  · next hn => rw [base_eq s hn]; exact stepCore_ok _ _ _ h
+
 /-! ### the pending wake-up reason always comes from an interrupt inside the current sleep/yield -/
 
 /-- if a thread has a pending wake-up reason, it is the errno of the last interrupt that reached it
@@ -102,9 +117,12 @@ theorem eff_inv (s : St) (e : Ev) (h : InvErr s) : InvErr (eff s e) := by
   case mutexTry m ok t => unfold effMutexTry; split <;> exact h
   case mutexUnlock m no hd by_ => exact h
   case callUnlock t m => exact h
-  case semInit sm c => exact h
+  case semInit sm c io => exact h
+  case mutexInit m => exact h
   case semAdd sm n c => exact h
-  case semSub sm n ok by_ => unfold effSemSub; split <;> exact h
+  case semSub sm n ok by_ =>
+    have h1 : InvErr (setTh s by_ { s.th by_ with subOk := ok }) := inv_setTh s by_ _ h (fun hx => h by_ hx)
+    unfold effSemSub; split <;> exact inv_of_th _ _ h1 rfl
   case semResume sm d t => exact h
   case semPass sm c => exact h
   case callNotify t c => exact h
@@ -218,7 +236,8 @@ theorem C04_reason_only_from_interrupt (s s' : St) (ev : Ev) (t : Nat) (h : step
     · next hh => subst hh; exact h0
     · exact h0
   case mutexTry m ok t' => simp only [effMutexTry]; split <;> exact h0
-  case semSub sm n ok b => simp only [effSemSub]; split <;> exact h0
+  case semSub sm n ok b =>
+    simp only [effSemSub]; split <;> (simp only [setTh, upd]; split <;> first | exact h0 | (next hh => subst hh; exact h0))
   all_goals first
     | exact h0
     | (simp only [effDie, effCall, effSetShutdown, effResume, effYield, effRet, setTh, upd]; split
